@@ -368,10 +368,10 @@ impl Run {
 
     /// Case count for the current tier. `VERIF_SCALE` (float) scales it (used for experiments only).
     pub fn cases(&self, quick: u32, thorough: u32) -> u32 {
-        // The thorough tier is bounded by a multiple of the quick tier (default 6x): every registered
+        // The thorough tier is bounded by a multiple of the quick tier (default 4x): every registered
         // thorough command has been run to completion on the unchanged tree at that size. The sizes written
         // at the call sites are the ceiling; VERIF_THOROUGH_FACTOR (or VERIF_SCALE) deepens a run at will.
-        let factor: u32 = std::env::var("VERIF_THOROUGH_FACTOR").ok().and_then(|s| s.parse().ok()).unwrap_or(6);
+        let factor: u32 = std::env::var("VERIF_THOROUGH_FACTOR").ok().and_then(|s| s.parse().ok()).unwrap_or(4);
         let n = match self.tier {
             Tier::Quick => quick,
             Tier::Thorough => thorough.min(quick.saturating_mul(factor)).max(quick),
